@@ -600,7 +600,7 @@ def pl_corr(res, pagesize):
         return 0
     f = os.path.join(res["dir"], "pl.ev")
     open(f, "w").write("\n".join(ev) + "\n")
-    rc, out = sh([MONITOR, "pl", str(pagesize), f], timeout=300)
+    rc, out = sh([MONITOR, "pl", str(pagesize), f], timeout=3000)
     lines = [l for l in out.split("\n") if l.strip()]
     ok = lines and lines[-1].startswith("done")
     rej = [l for l in lines if l.startswith("REJECT")]
